@@ -24,6 +24,7 @@ GEN = "pyvc.BackoffGenerator"
 
 CE = EXC + "ConnectError"
 CT = EXC + "ConnectTimeout"
+CNA = EXC + "ConnectionNotAvailable"
 
 alpn_of = z3.Function("alpn_of", ValS, ValS)  # ssl_object.selected_alpn_protocol()
 
@@ -464,6 +465,9 @@ def register(reg):
                 out += [
                     ("connect_only_under_request_lock", ("C04", "C20", "C08"), lid in c.st.held),
                     ("connect_only_when_unconnected", ("C04", "C20"), F(c, s, "HC._connection") == 0),
+                    # the pool drops an unconnected connection whose _connect_failed is set (is_closed() is
+                    # True): a stream opened on it afterwards would be owned by no pooled connection
+                    ("never_establishes_a_connection_already_marked_failed", ("C06", "C04", "C05"), z3.Not(F(c, s, "HC._connect_failed"))),
                     ("connect_gets_the_request", ("C16", "C10"), (ev.data["args"][0].t if ev.data["args"] else ev.data["kwargs"]["request"].t) == c.args["request"].t),
                 ]
             if ev.name in ("H11.__init__", "H2.__init__"):
@@ -503,6 +507,11 @@ def register(reg):
             conns = c.events("call:" + HC + "._connect")
             if exc.cls == "RuntimeError":
                 return [("wrong_origin_guard_touches_nothing", ("C10",), not hs and not conns and not c.events("field.write"))]
+            if exc.cls == CNA and not exc.tag.get("from"):
+                # C14: a refusal originated here is only allowed while provably nothing was opened or written
+                out.append(("refusal_only_for_a_connection_marked_failed_and_before_any_io", ("C14", "C06"),
+                            z3.And(F(c, s, "HC._connect_failed"), F(c, s, "HC._connection") == 0, z3.BoolVal(not conns and not hs))))
+                return out
             if not hs:
                 # failed before the request reached a protocol connection: establishment failed/cancelled
                 lid = lock_id(c.new(s, "HC._request_lock"))
